@@ -610,6 +610,22 @@ func lgRunSchedule(t *testing.T, sc lgSched) (lines []map[string]any, hits map[s
 				}
 			}
 			refMu.Unlock()
+			// ... plus the first and the last offset of every hole of the log (below the first batch, between two batches):
+			// a fetch there must be answered from the next batch that exists
+			holeEnd := int64(0)
+			for _, rb := range refl {
+				if rb[0] > holeEnd {
+					for _, h := range []int64{holeEnd, rb[0] - 1} {
+						if !seenOff[h] {
+							seenOff[h] = true
+							offs = append(offs, h)
+						}
+					}
+				}
+				if e := rb[0] + rb[1]; e > holeEnd {
+					holeEnd = e
+				}
+			}
 			sort.Slice(offs, func(i, j int) bool { return offs[i] < offs[j] })
 			for _, o := range offs {
 				for _, mb := range sc.MBs {
